@@ -31,6 +31,7 @@ import (
 	"github.com/prometheus/common/model"
 
 	"github.com/prometheus/alertmanager/alert"
+	apiv2 "github.com/prometheus/alertmanager/api/v2"
 	"github.com/prometheus/alertmanager/config"
 	"github.com/prometheus/alertmanager/dispatch"
 
@@ -43,6 +44,7 @@ type StatParams struct {
 	Submitters int    `json:"submitters,omitempty"` // pipeline: concurrent submitting goroutines
 	PerRound   int    `json:"per_round,omitempty"`  // pipeline: label-set slots per submitter and round
 	Racers     int    `json:"racers,omitempty"`     // direct: goroutines per barrier (2 or 3)
+	ViaAPI     bool   `json:"via_api,omitempty"`    // pipeline: submit through the real POST /api/v2/alerts handler (it stamps UpdatedAt)
 	BudgetMs   int    `json:"budget_ms,omitempty"`  // stop early (fewer rounds) when this much wall time is used; 0 = no cap
 	Note       string `json:"note,omitempty"`
 }
@@ -52,6 +54,7 @@ type StatResult struct {
 	Updates   int    `json:"updates"`
 	Reordered int    `json:"reordered"`
 	Lost      int    `json:"lost"`
+	StampTies int    `json:"stamp_ties"` // ViaAPI: POSTs of one label set whose stored UpdatedAt did not strictly increase
 	First     string `json:"first,omitempty"`
 	Millis    int64  `json:"millis"`
 }
@@ -79,7 +82,14 @@ func pipelineRun(t *testing.T, p StatParams) StatResult {
 		}
 		lsets[i] = model.LabelSet{"alertname": model.LabelValue("S" + strconv.Itoa(i%7)), "team": model.LabelValue(team), "inst": model.LabelValue(strconv.Itoa(i))}
 	}
-	want := make([]int64, nls) // last submitted UpdatedAt per label set (each label set belongs to one submitter)
+	want := make([]int64, nls)      // tag (global sequence number, annotation v) of the last submitted version per label set
+	stamp := make([]time.Time, nls) // ViaAPI: UpdatedAt the handler gave the previous POST of the label set
+	var api *apiv2.API
+	if p.ViaAPI {
+		api = newAPI(t, rig.Alerts)
+	}
+	var stampTies atomic.Int64
+	var firstTie atomic.Pointer[string]
 	res := StatResult{}
 	var puts atomic.Int64
 	for round := 0; round < p.Rounds; round++ {
@@ -94,24 +104,49 @@ func pipelineRun(t *testing.T, p StatParams) StatResult {
 				defer wg.Done()
 				for j := 0; j < p.PerRound; j++ {
 					a, b := (s*p.PerRound+j)*2, (s*p.PerRound+j)*2+1 // two label sets, interleaved
-					n := 2 + (round+j)%2                            // pairs and triples
+					n := 2 + (round+j)%2                             // pairs and triples
 					for k := 0; k < n; k++ {
 						for _, li := range []int{a, b} {
 							if li == b && (round+j)%3 == 0 {
 								continue // every third slot: one label set only
 							}
-							u := base.Add(time.Duration(seq.Add(1)) * time.Microsecond)
+							sq := seq.Add(1)
+							u := base.Add(time.Duration(sq) * time.Microsecond)
 							ends := u.Add(5 * time.Minute)
-							if k == n-2 && j%4 == 1 {
-								ends = u.Add(-time.Second) // resolve then re-fire
+							resolve := k == n-2 && j%4 == 1 // resolve then re-fire
+							if resolve {
+								ends = u.Add(-time.Second)
 							}
-							al := mkAlert(lsets[li].Clone(), u, ends, k)
-							if err := rig.Alerts.Put(context.Background(), al); err != nil {
-								t.Errorf("Put: %v", err)
-								return
+							if p.ViaAPI {
+								var e time.Time
+								if resolve {
+									e = time.Now()
+								}
+								if code := postAlert(api, lsets[li], int(sq), e); code != 200 {
+									t.Errorf("POST: status %d", code)
+									return
+								}
+								got, err := rig.Alerts.Get(lsets[li].Fingerprint())
+								if err != nil {
+									t.Errorf("Get after POST: %v", err)
+									return
+								}
+								if !stamp[li].IsZero() && !got.UpdatedAt.After(stamp[li]) {
+									stampTies.Add(1)
+									msg := fmt.Sprintf("round %d: two back-to-back POSTs of label set %d were stamped UpdatedAt %s and %s", round, li,
+										stamp[li].Format(time.RFC3339Nano), got.UpdatedAt.Format(time.RFC3339Nano))
+									firstTie.CompareAndSwap(nil, &msg)
+								}
+								stamp[li] = got.UpdatedAt
+							} else {
+								al := mkAlert(lsets[li].Clone(), u, ends, int(sq))
+								if err := rig.Alerts.Put(context.Background(), al); err != nil {
+									t.Errorf("Put: %v", err)
+									return
+								}
 							}
 							puts.Add(1)
-							want[li] = u.UnixNano()
+							want[li] = sq
 						}
 					}
 				}
@@ -132,11 +167,11 @@ func pipelineRun(t *testing.T, p StatParams) StatResult {
 			for _, a := range g.Alerts {
 				seen[a.Fingerprint()]++
 				li, _ := strconv.Atoi(string(a.Labels["inst"]))
-				if w := want[li]; w != 0 && a.UpdatedAt.UnixNano() != w {
+				tag, _ := strconv.ParseInt(string(a.Annotations["v"]), 10, 64)
+				if w := want[li]; w != 0 && tag != w {
 					res.Reordered++
 					if res.First == "" {
-						res.First = fmt.Sprintf("round %d: group %s holds UpdatedAt %d us of label set %d, last submitted %d us", round, g.Key,
-							a.UpdatedAt.Sub(base).Microseconds(), li, (w-base.UnixNano())/1000)
+						res.First = fmt.Sprintf("round %d: group %s holds submission #%d of label set %d, the last submitted is #%d", round, g.Key, tag, li, w)
 					}
 				}
 			}
@@ -146,8 +181,14 @@ func pipelineRun(t *testing.T, p StatParams) StatResult {
 				res.Lost++
 			}
 		}
-		if res.Reordered > 0 {
+		res.StampTies = int(stampTies.Load())
+		if res.Reordered > 0 || res.StampTies > 0 {
 			res.Rounds = round + 1
+			if m := firstTie.Load(); m != nil && res.First == "" {
+				res.First = *m
+			} else if m != nil {
+				res.First += "; " + *m
+			}
 			break
 		}
 	}
